@@ -12,7 +12,7 @@ cache layers (plus the invocation's own writes for `findw`).
   findl <id4> <prefix> <opts>               -> invalid:<i> | fault | ok:[item,...]   (live model store, now)
   findh <h> <id4> <prefix> <opts>           -> the same on the trie of height h
   findw <h|live> <id4> <prefix> <opts> <key> <val|del> ...  -> the same after the invocation's own writes
-  getw <h|live> <id4> <key> <k> <v|del> ... -> <val hex> | none   System.Storage.Get after the invocation's own
+  getw <h|live> <id4> <key> <k> <v|del> ... -> <val hex> | none | fault   System.Storage.Get after the invocation's own
                                                writes: model store stack (live) / cache layers over TrieStore (h)
   dfindh / dfindw / dget                    -> as findh / findw / get: the harness created the historic context
                                                earlier and evaluates it after later blocks were stored; the model's
@@ -108,7 +108,8 @@ def showOptKey : Option Bytes → String
 
 open NeoModel.StateCommit.Rpc in
 def showFind : Except FindErr FindRes → String
-  | .error _ => "err:keyprefix"
+  | .error .keyPrefix => "err:keyprefix"
+  | .error .tooLong => "err:internal"
   | .ok r =>
     (if r.truncated then "T " else "F ") ++
       (if r.results.isEmpty then "none" else ",".intercalate (r.results.map fun e => Hex.encode e.1 ++ "=" ++ Hex.encode e.2)) ++
@@ -204,12 +205,13 @@ def step (s : St) (ws0 : List String) : St × String :=
     match Hex.decode id, Hex.decode key, parsePairs items with
     | some idb, some kb, some wr =>
       let W := writeLayer (idOf idb) wr
-      let shw (o : Option Bytes) : String := match o with | some v => Hex.encode v | none => "none"
+      let shw (o : Option (Option Bytes)) : String :=
+        match o with | some (some v) => Hex.encode v | some none => "none" | none => "fault"
       if h == "live" then
-        (s, shw (StateCommit.Find.getLive (.cached W s.live) 0x70 (idOf idb) kb))
+        (s, shw (StateCommit.Find.getSyscallLive (.cached W s.live) 0x70 (idOf idb) kb))
       else
         match h.toNat?.bind (fun hn => s.hist.lookup hn) with
-        | some t => (s, shw (StateCommit.Find.getHistoric t [W, Store.Layer.fresh false] 0x70 (idOf idb) kb))
+        | some t => (s, shw (StateCommit.Find.getSyscallHistoric t [W, Store.Layer.fresh false] 0x70 (idOf idb) kb))
         | none => (s, "no-such-height")
     | _, _, _ => (s, "bad-op")
   | ["rpcget", h, id, key] =>
